@@ -363,3 +363,26 @@ def check_parses(ctx, sess, keys, limit=120):
         if m[0] != 'ok' or m[1] != want or m[2] != r[3]:
             ctx.disagreement('parse_markers ~ MarkerTree::parse_reporter (diagram, warning kinds)', text, dump(m)[:400], dump([want, r[3]])[:400])
     tm.close()
+
+
+def check_source_tables(ctx, keys):
+    """the keyword table translated from the source (gen/Tables.json, written by tools/gentables.py in this run) against the
+    table the crate reports at run time, which is the one the extracted parser is given: name -> (kind, index in the enum)"""
+    import json
+    from . import build
+    try:
+        js = json.load(open(build.GEN + '/Tables.json'))
+    except OSError:
+        return
+    for name, v in js['keywords']:
+        if v == 'KwExtra':
+            continue
+        kind, variant = v.split(' ')
+        want = ('str', str(js['string_keys'].index(variant[2:]))) if kind == 'KwString' else ('ver', str(js['version_keys'].index(variant[2:])))
+        got = keys.spelling.get(name)
+        ctx.corr_cases += 1
+        if got != want:
+            ctx.disagreement('keyword table of the source (gen/Tables.v) ~ MarkerValue::from_str at run time', name, repr(want), repr(got))
+    for name in keys.spelling:
+        if name not in [k for k, _ in js['keywords']]:
+            ctx.disagreement('keyword table of the source (gen/Tables.v) ~ MarkerValue::from_str at run time', name, 'absent from the source table', repr(keys.spelling[name]))
